@@ -111,6 +111,30 @@ def sfx(case):
     return f" [call {case['_call']} on a REUSED solver object, history of {len(case['_report']['calls'])} calls]" if "_report" in case else ""
 
 
+def bad_result(ctx, cc, x, who, hs=""):
+    """anything but a tensor coming back from the implementation is a failure of the property, not of the harness"""
+    if isinstance(x, torch.Tensor):
+        return False
+    ctx.fail(cc, f"shape: {who} returned {type(x).__name__} instead of a tensor" + hs)
+    return True
+
+
+def guarded(ctx, case, fn, *args):
+    """run one case; an exception raised from inside /repo's code outside the harness's own try blocks (or caused by
+    an object the implementation handed back) is reported as a failure with the case — never as a harness crash"""
+    import traceback
+    try:
+        return fn(ctx, case, *args)
+    except common.InfraError:
+        raise
+    except Exception as e:
+        tb = traceback.format_exc()
+        if "/pypose/" in tb or "_impl_value" in tb:
+            ctx.fail(rep_case(case), f"crash: {type(e).__name__}: {str(e)[:160]}" + sfx(case))
+            return None
+        raise
+
+
 def pub(case):
     return {k: v for k, v in case.items() if not k.startswith("_")}
 
@@ -221,6 +245,8 @@ def check_ls(ctx: Ctx, case, lines_out=None) -> bool:
         ctx.fail(rep_case(case), f"raises: {name} raised on a finite system ({m}x{n}): {type(e).__name__}: {str(e)[:100]}" + sfx(case))
         return False
     ok = True
+    if bad_result(ctx, rep_case(case), x, name, sfx(case)):
+        return False
     if not (torch.equal(A, A0) and torch.equal(b, b0)):
         ctx.fail(rep_case(case), f"mutation: {name} changed its arguments" + sfx(case))
         ok = False
@@ -259,6 +285,21 @@ def check_ls(ctx: Ctx, case, lines_out=None) -> bool:
                 if d > 64 * eps * (sc + 1e-300):
                     ctx.disagree("ls.wrapper", rep_case(case), f"item {k}: {name} differs from lstsq(A,b,rcond,driver).solution by {d:.3e}")
                     ok = False
+    if name in ("PINV:rtol", "PINV:atol", "LSTSQ:rcond") and lines_out is not None:
+        # documented semantics of the tolerance arguments: singular values below the cut-off are treated as zero, i.e. the
+        # result is the minimum-norm least-squares solution of the truncated matrix (judged only when no singular value
+        # lies within a factor 4 of the cut-off)
+        for k, rec in enumerate(recs):
+            U, sv, Vh = torch.linalg.svd(rec["A"], full_matrices=True)
+            s1 = float(sv[0]) if sv.numel() else 0.0
+            cut = {"PINV:rtol": max(1e-300, 1e-2 * s1), "PINV:atol": 0.5, "LSTSQ:rcond": 1e-2 * s1}[name]
+            if any(cut / 4 <= float(v) <= cut * 4 for v in sv):
+                ctx.count("ls.trunc.ambiguous")
+                continue
+            kk = int((sv > cut).sum())
+            At = (U[:, :kk] * sv[:kk]) @ Vh[:kk]
+            trec = {**rec, "A": At, "r": kk, "s1": s1, "sr": float(sv[kk - 1]) if kk else 0.0, "null": Vh[kk:].T, "trunc": True}
+            lines_out.append((case, trec, "tcert", f"c10.lscert {m} {n} {wl(At)} {wl(bf[k])} {wl(xf[k])}"))
     case["_recs"] = recs
     return ok
 
@@ -307,6 +348,20 @@ def judge_ls(ctx: Ctx, case, rec, what, rep):
         if g > tol + 1e-300:
             ctx.fail(cc, f"ls-certificate: {name} result is not a least-squares solution: |A^T(Ax-b)| = {g:.3e} > {tol:.3e} "
                          f"({m}x{n}, rank {r}, cond {kap:.1e}, {dtype})" + sfx(case))
+    elif what == "tcert":
+        g, res, xn, bn, an = nums(rep)
+        scale = s1 * (s1 * xn + bn)
+        tol = 64 * eps * dim * scale * kap
+        ctx.count("ls.trunc")
+        stat("ls.trunc." + dtype, g / (tol + 1e-300))
+        nullc = float((rec["null"].T @ rec["x"]).norm()) if rec["null"].numel() else 0.0
+        toln = 64 * eps * dim * kap * (xn + (bn / sr if sr > 0 else 0.0))
+        if r == 0:
+            toln = 64 * eps * dim * (bn / max(s1, 1e-300) if s1 > 0 else 0.0)
+        if g > tol + 1e-300 or nullc > toln + 1e-300:
+            ctx.fail(cc, f"ls-truncated: {name} is not the minimum-norm least-squares solution of A with the singular values below its "
+                         f"cut-off set to zero: |At^T(At x-b)| = {g:.3e} (tol {tol:.3e}), component of x in the discarded directions "
+                         f"{nullc:.3e} (tol {toln:.3e}) ({m}x{n}, kept {r} of {min(m, n)} singular values, {dtype})" + sfx(case))
     elif what == "ref":
         st, toks = common.parse_reply(rep)
         if st != "ok":
@@ -362,6 +417,7 @@ def chol_item(it, n, dtype):
         if it.get("dscale"):
             d = 2.0 ** torch.randint(-it["dscale"], it["dscale"] + 1, (n,), generator=g).double()
             A = d[:, None] * A * d[None, :]
+        A = A * 2.0 ** it.get("scale", 0)
     elif kind == "intspd":
         Bm = torch.randint(-3, 4, (n, n), generator=g).double()
         A = Bm @ Bm.T + torch.eye(n, dtype=torch.float64)
@@ -422,76 +478,87 @@ def run_chol_cases(ctx: Ctx, cases):
     # phase 2: implementation + verdicts; residual certificates need another driver round
     cert_lines, cert_meta = [], []
     for ci, case in enumerate(cases):
-        A, b, items = built[ci]
-        n, dtype = case["n"], case["dtype"]
-        eps = EPS[dtype]
-        regions = []
-        for k in range(len(items)):
-            pdm, pd, pdp, info, xm = model[(ci, k)]
-            regions.append("pd" if pdm else ("npd" if not pdp else "band"))
-        must_raise = any(r == "npd" for r in regions)
-        must_return = all(r == "pd" for r in regions)
-        sig = ("chol", case["upper"], dtype, len(case["batch"]), n, tuple(sorted({it["kind"] for it in case["items"]})),
-               tuple(sorted(set(regions))), tuple(sorted({it.get("cexp", 0) for it in case["items"]})))
-        ctx.note_case(sig, n >= 2)
-        for r, it in zip(regions, case["items"]):
-            ctx.count(f"chol.{it['kind']}.{r}")
-        ctx.sample({"stream": "chol", **{k: v for k, v in pub(case).items() if k != "items"}, "regions": regions}, cap=12)
-        A0, b0 = A.clone(), b.clone()
-        sol = case.get("_sol") or S().Cholesky(upper=case["upper"])
-        raised = None
         try:
-            x = sol(A, b)
+            A, b, items = built[ci]
+            n, dtype = case["n"], case["dtype"]
+            eps = EPS[dtype]
+            regions = []
+            for k in range(len(items)):
+                pdm, pd, pdp, info, xm = model[(ci, k)]
+                regions.append("pd" if pdm else ("npd" if not pdp else "band"))
+            must_raise = any(r == "npd" for r in regions)
+            must_return = all(r == "pd" for r in regions)
+            sig = ("chol", case["upper"], dtype, len(case["batch"]), n, tuple(sorted({it["kind"] for it in case["items"]})),
+                   tuple(sorted(set(regions))), tuple(sorted({it.get("cexp", 0) for it in case["items"]})))
+            ctx.note_case(sig, n >= 2)
+            for r, it in zip(regions, case["items"]):
+                ctx.count(f"chol.{it['kind']}.{r}")
+            ctx.sample({"stream": "chol", **{k: v for k, v in pub(case).items() if k != "items"}, "regions": regions}, cap=12)
+            A0, b0 = A.clone(), b.clone()
+            sol = case.get("_sol") or S().Cholesky(upper=case["upper"])
+            raised = None
+            try:
+                x = sol(A, b)
+            except Exception as e:
+                raised = e
+            cc = rep_case(case)
+            hs = sfx(case)
+            if not (torch.equal(A, A0) and torch.equal(b, b0)):
+                ctx.fail(cc, "mutation: Cholesky changed its arguments" + hs)
+            if raised is not None:
+                if must_return:
+                    ctx.fail(cc, f"chol-raises: Cholesky raised on a symmetric positive-definite system (n={n}, {dtype}, "
+                                 f"upper={case['upper']}): {type(raised).__name__}: {str(raised)[:80]}" + hs)
+                    ctx.disagree("chol.decision", cc, "implementation raised, model factorises with margin")
+                continue
+            if bad_result(ctx, cc, x, "Cholesky", hs):
+                continue
+            if must_raise:
+                bad = [k for k, r in enumerate(regions) if r == "npd"]
+                k = bad[0]
+                Ak = A.reshape(-1, n, n)[k].double()
+                xk = x.reshape(-1, n, b.shape[-1])[k].double()
+                bk = b.reshape(-1, n, b.shape[-1])[k].double()
+                resid = float((Ak @ xk - bk).norm() / (bk.norm() + 1e-300))
+                ctx.fail(cc, f"chol-silent: Cholesky returned a vector for a matrix that is not positive definite "
+                             f"(item {k} of {len(regions)}, kind {case['items'][k]['kind']}, model info={model[(ci, k)][3]}, "
+                             f"relative residual of the returned vector {resid:.3e}, n={n}, {dtype}, upper={case['upper']})" + hs)
+                ctx.disagree("chol.decision", cc, "implementation returned, model reports a non-positive pivot with margin")
+                continue
+            if tuple(x.shape) != tuple(b.shape) or x.dtype != b.dtype:
+                ctx.fail(cc, f"shape: Cholesky returned {tuple(x.shape)} for b {tuple(b.shape)}")
+                continue
+            xf = x.reshape(-1, n, b.shape[-1]).double()
+            Af = A.reshape(-1, n, n).double()
+            bf = b.reshape(-1, n, b.shape[-1]).double()
+            for k in range(len(items)):
+                pdm, pd, pdp, info, xm = model[(ci, k)]
+                if regions[k] != "pd":
+                    # rounding band: either outcome is acceptable, but a returned vector must still be the exact
+                    # solution of a nearby system (backward error at rounding level), never garbage
+                    ctx.count("chol.band.returned")
+                    xm = None
+                if not bool(torch.isfinite(xf[k]).all()):
+                    ctx.fail({**cc, "item": k}, f"chol-silent: Cholesky returned a non-finite vector without raising (n={n}, {dtype})")
+                    continue
+                cert_lines.append(f"c10.lscert {n} {n} {wl(Af[k])} {wl(bf[k][:, 0])} {wl(xf[k][:, 0])}")
+                cert_meta.append(({**cc, "n": n, "upper": case["upper"]}, k, Af[k], xf[k][:, 0], xm, dtype))
+                if regions[k] != "pd":
+                    continue
+                # further right-hand sides: float64 residual is accurate enough relative to the tolerance scale
+                for c in range(1, bf.shape[-1]):
+                    rr = float((Af[k] @ xf[k][:, c] - bf[k][:, c]).norm())
+                    sc = float(torch.linalg.matrix_norm(Af[k], 2) * xf[k][:, c].norm() + bf[k][:, c].norm())
+                    if rr > 64 * eps * n * sc + 1e-300:
+                        ctx.fail(cc, f"chol-residual: |A x - b| = {rr:.3e} > {64 * eps * n * sc:.3e} for right-hand side {c}")
+        except common.InfraError:
+            raise
         except Exception as e:
-            raised = e
-        cc = rep_case(case)
-        hs = sfx(case)
-        if not (torch.equal(A, A0) and torch.equal(b, b0)):
-            ctx.fail(cc, "mutation: Cholesky changed its arguments" + hs)
-        if raised is not None:
-            if must_return:
-                ctx.fail(cc, f"chol-raises: Cholesky raised on a symmetric positive-definite system (n={n}, {dtype}, "
-                             f"upper={case['upper']}): {type(raised).__name__}: {str(raised)[:80]}" + hs)
-                ctx.disagree("chol.decision", cc, "implementation raised, model factorises with margin")
-            continue
-        if must_raise:
-            bad = [k for k, r in enumerate(regions) if r == "npd"]
-            k = bad[0]
-            Ak = A.reshape(-1, n, n)[k].double()
-            xk = x.reshape(-1, n, b.shape[-1])[k].double()
-            bk = b.reshape(-1, n, b.shape[-1])[k].double()
-            resid = float((Ak @ xk - bk).norm() / (bk.norm() + 1e-300))
-            ctx.fail(cc, f"chol-silent: Cholesky returned a vector for a matrix that is not positive definite "
-                         f"(item {k} of {len(regions)}, kind {case['items'][k]['kind']}, model info={model[(ci, k)][3]}, "
-                         f"relative residual of the returned vector {resid:.3e}, n={n}, {dtype}, upper={case['upper']})" + hs)
-            ctx.disagree("chol.decision", cc, "implementation returned, model reports a non-positive pivot with margin")
-            continue
-        if tuple(x.shape) != tuple(b.shape) or x.dtype != b.dtype:
-            ctx.fail(cc, f"shape: Cholesky returned {tuple(x.shape)} for b {tuple(b.shape)}")
-            continue
-        xf = x.reshape(-1, n, b.shape[-1]).double()
-        Af = A.reshape(-1, n, n).double()
-        bf = b.reshape(-1, n, b.shape[-1]).double()
-        for k in range(len(items)):
-            pdm, pd, pdp, info, xm = model[(ci, k)]
-            if regions[k] != "pd":
-                # rounding band: either outcome is acceptable, but a returned vector must still be the exact
-                # solution of a nearby system (backward error at rounding level), never garbage
-                ctx.count("chol.band.returned")
-                xm = None
-            if not bool(torch.isfinite(xf[k]).all()):
-                ctx.fail({**cc, "item": k}, f"chol-silent: Cholesky returned a non-finite vector without raising (n={n}, {dtype})")
-                continue
-            cert_lines.append(f"c10.lscert {n} {n} {wl(Af[k])} {wl(bf[k][:, 0])} {wl(xf[k][:, 0])}")
-            cert_meta.append(({**cc, "n": n, "upper": case["upper"]}, k, Af[k], xf[k][:, 0], xm, dtype))
-            if regions[k] != "pd":
-                continue
-            # further right-hand sides: float64 residual is accurate enough relative to the tolerance scale
-            for c in range(1, bf.shape[-1]):
-                rr = float((Af[k] @ xf[k][:, c] - bf[k][:, c]).norm())
-                sc = float(torch.linalg.matrix_norm(Af[k], 2) * xf[k][:, c].norm() + bf[k][:, c].norm())
-                if rr > 64 * eps * n * sc + 1e-300:
-                    ctx.fail(cc, f"chol-residual: |A x - b| = {rr:.3e} > {64 * eps * n * sc:.3e} for right-hand side {c}")
+            import traceback
+            if "/pypose/" in traceback.format_exc():
+                ctx.fail(rep_case(case), f"crash: {type(e).__name__}: {str(e)[:160]}" + sfx(case))
+            else:
+                raise
     reps = ctx.driver.run(cert_lines)
     for rep, (cc, k, Ak, xk, xm, dtype) in zip(reps, cert_meta):
         g, res, xn, bn, an = nums(rep)
@@ -680,6 +747,8 @@ def check_cg(ctx: Ctx, case):
         ctx.fail(cc, "mutation: CG changed A or b" + hs)
     if M is not None and not torch.equal(Ml.to_dense() if Ml.layout != torch.strided else Ml, M):
         ctx.fail(cc, "mutation: CG changed the preconditioner" + hs)
+    if bad_result(ctx, cc, x, "CG", hs):
+        return None, K
     if x.layout != torch.strided:
         x = x.to_dense()
     if tuple(x.shape) != (n, 1) or x.dtype != b.dtype:
@@ -812,8 +881,8 @@ def sparse_build(case):
         VA = torch.randint(-4, 5, (sm, sn, dm, dn), generator=g).to(dt)
         VB = torch.randint(-4, 5, (sn, sp, dn, dp), generator=g).to(dt)
     else:
-        VA = torch.randn(sm, sn, dm, dn, generator=g, dtype=torch.float64).to(dt)
-        VB = torch.randn(sn, sp, dn, dp, generator=g, dtype=torch.float64).to(dt)
+        VA = (torch.randn(sm, sn, dm, dn, generator=g, dtype=torch.float64) * 2.0 ** case.get("vscale", 0)).to(dt)
+        VB = (torch.randn(sn, sp, dn, dp, generator=g, dtype=torch.float64) * 2.0 ** case.get("vscale2", 0)).to(dt)
     if case.get("zeroval"):  # stored blocks whose values are all zero
         VA = VA * (torch.rand(sm, sn, 1, 1, generator=g) < 0.5).to(dt)
     return PA, PB, VA, VB
@@ -883,6 +952,8 @@ def check_sparse(ctx: Ctx, case, lines_out=None):
                      f"nnz {len(col)}/{len(row)}): {type(e).__name__}: {str(e)[:120]}")
         return False
     ok = True
+    if bad_result(ctx, cc, y, case["api"]):
+        return False
     if not (torch.equal(bsr.to_dense(), DA) and torch.equal(bsc.to_dense(), DB)):
         ctx.fail(cc, "mutation: the sparse product changed an operand")
         ok = False
@@ -965,7 +1036,12 @@ def judge_sparse_model(ctx: Ctx, cc, y, rep):
     if cc["data"] == "int":
         same = torch.equal(yv, vals)
     else:
-        same = bool(((yv - vals).abs() <= 64 * EPS[cc["dtype"]] * (vals.abs() + 1) * max(cc["sn"] * cc["dn"], 1)).all())
+        # per-entry scale |A||B| of the very block (no absolute floor that could swallow an error on small data)
+        PA, PB, VA, VB = sparse_build(cc)
+        scale = (dense_of(PA, VA).double().abs() @ dense_of(PB, VB).double().abs())
+        sb = torch.stack([scale[i * dm:(i + 1) * dm, j * dp:(j + 1) * dp]
+                          for i in range(sm) for j in col[crow[i]:crow[i + 1]]]) if nb else scale.new_zeros((0, dm, dp))
+        same = bool(((yv - vals).abs() <= 64 * EPS[cc["dtype"]] * sb * max(cc["sn"] * cc["dn"], 1)).all())
     if not same:
         ctx.disagree("sparse.values", cc, f"result block values differ from the model by {float((yv - vals).abs().max()):.3e}")
 
@@ -997,6 +1073,8 @@ def check_dispatch(ctx: Ctx, case, route=None):
         err = f"{type(e).__name__}: {str(e)[:80]}"
     ctx.count(f"dispatch.{case['l1']}x{case['l2']}.{outcome}")
     if outcome == "returns":
+        if bad_result(ctx, cc, y, "_sparse_csr_mm"):
+            return False
         yd = valid_dense(y)
         if yd is None or tuple(yd.shape) != tuple(want.shape) or not torch.equal(yd.double(), want):
             ctx.fail(cc, f"dispatch-product: _sparse_csr_mm({case['l1']}, {case['l2']}) returned a tensor that is not the dense "
@@ -1168,6 +1246,8 @@ def run_history(ctx: Ctx, hists):
 
 def pick_dim(rng, hi=40):
     c = rng.random()
+    if hi >= 40 and c > 0.985:      # beyond the documented 1..40: the property says "every"
+        return rng.choice([41, 48, 57, 64])
     if c < 0.25:
         return rng.choice([1, 2, 3])
     if c < 0.7:
@@ -1203,14 +1283,14 @@ def gen_ls_cases(ctx: Ctx, count):
                 it = {"kind": "float", "cexp": rng.choice([0, 1, 3, cmax])}
             elif c < 0.4:
                 it = {"kind": "float", "cexp": rng.choice([0, 1, 2, 3] + ([4, 5, 6, 7, 8] if dtype == "float64" else [])),
-                      "ascale": rng.choice([0, 0, -20, 20])}
+                      "ascale": rng.choice([0, 0, -20, 20] + ([-100, 100] if dtype == "float64" else []))}
             elif c < 0.55:
                 it = {"kind": "int", "r": min(m, n), "cexp2": rng.choice([0, 0, 4, 12] if dtype == "float64" else [0, 2])}
             else:
                 r = rng.choice([0, 1, max(min(m, n) - 1, 0), rng.randint(0, min(m, n))])
                 it = {"kind": "int", "r": r, "cexp2": rng.choice([0, 0, 4, 10, 20] if dtype == "float64" else [0, 2])}
             it["b"] = rng.choice(["generic", "generic", "consistent", "zero"])
-            it["bscale"] = rng.choice([0, 0, 0, -30, 30])
+            it["bscale"] = rng.choice([0, 0, 0, -30, 30] + ([-100, 100] if dtype == "float64" else []))
             it["seed"] = rng.randrange(1 << 30)
             items.append(it)
         cases.append({"kind": "ls", "solver": solver, "dtype": dtype, "batch": batch, "m": m, "n": n, "items": items})
@@ -1231,7 +1311,7 @@ def run_ls(ctx: Ctx, cases):
             check_ls_malformed(ctx, case)
             ctx.note_case(("ls.malformed", case["solver"], case["dtype"], case["m"], case["n"], case["malformed"]), True)
             continue
-        check_ls(ctx, case, lines)
+        guarded(ctx, case, check_ls, lines)
         m, n = case["m"], case["n"]
         kinds = tuple(sorted({(it["kind"], it.get("r", -1) if it["kind"] == "int" else it["cexp"], it["b"]) for it in case["items"]}))
         ctx.note_case(("ls", case["solver"], case["dtype"], len(case["batch"]), m, n, kinds), m >= 2 or n >= 2)
@@ -1272,6 +1352,7 @@ def gen_chol_cases(ctx: Ctx, count):
             if kind in ("spd", "indef", "negdef"):
                 it["cexp"] = rng.choice([0, 1, 2, 3] + ([4, 6, 8] if dtype == "float64" else []))
                 it["dscale"] = rng.choice([0, 0, 8])
+                it["scale"] = rng.choice([0, 0, 0] + ([-100, 100, 30] if dtype == "float64" else [-20, 20]))
             if kind == "indef":
                 it["j"] = rng.randrange(64)
                 it["nexp"] = rng.choice([0, 1, 3] + ([6, 9] if dtype == "float64" else []))
@@ -1316,7 +1397,8 @@ def gen_cg_cases(ctx: Ctx, count):
         cases.append({
             "kind": "cg", "n": n, "dtype": dtype, "layout": rng.choice(layouts),
             "spec": rng.choice(["log", "cluster", "outlier", "uniform", "lap"]), "cexp": cexp,
-            "ascale": rng.choice([0, 0, 0, -30, 30, 10]), "bscale": rng.choice([0, 0, -30, 30, -10, 17]),
+            "ascale": rng.choice([0, 0, 0, -30, 30, 10] + ([-100, 100] if dtype == "float64" else [])),
+            "bscale": rng.choice([0, 0, -30, 30, -10, 17] + ([-100, 100] if dtype == "float64" else [])),
             "b": rng.choice(["generic"] * 6 + ["zero", "e0"]),
             "x0": rng.choice(["none", "none", "none", "zeros", "random", "partial", "last", "far", "exact"]),
             "M": Mk, "Mlayout": rng.choice(["dense", "dense", "csr", "coo"]),
@@ -1330,7 +1412,7 @@ def gen_cg_cases(ctx: Ctx, count):
 def run_cg(ctx: Ctx, cases):
     lines, metas = [], []
     for case in cases:
-        x, K = check_cg(ctx, case)
+        x, K = guarded(ctx, case, check_cg) or (None, None)
         ctx.note_case(("cg", case["n"], case["dtype"], case["layout"], case["spec"], case["cexp"], case["ascale"], case["bscale"],
                        case["b"], case["x0"], case["M"], case["Mlayout"], case["tol"], case["maxiter"], case["bshape"]),
                       case["n"] >= 2 and case["b"] != "zero")
@@ -1359,11 +1441,20 @@ def gen_sparse_cases(ctx: Ctx, count):
             "kind": "sparse", "api": rng.choice(["bsr_bsc_matmul", "_sparse_csr_mm"]),
             "sm": rng.randint(1, 6), "sn": rng.randint(1, 6), "sp": rng.randint(1, 6),
             "dm": rng.randint(1, 4), "dn": rng.randint(1, 4), "dp": rng.randint(1, 4),
+            "vscale": rng.choice([0, 0, 0, -40, 40, -100]), "vscale2": rng.choice([0, 0, 0, -40, 40, 100]),
             "pa": rng.choice(pats), "pb": rng.choice(pats),
             "da": rng.choice([0.0, 0.1, 0.3, 0.5, 0.8, 1.0]), "db": rng.choice([0.0, 0.1, 0.3, 0.5, 0.8, 1.0]),
             "disjoint": rng.random() < 0.08, "zeroval": rng.random() < 0.1,
             "data": rng.choice(["int", "int", "float"]), "dtype": rng.choice(["float64", "float32"]),
             "seed": rng.randrange(1 << 30)})
+        if rng.random() < 0.06:      # beyond the documented block sizes 1..4 / small grids
+            cases[-1].update({"sm": rng.randint(7, 12), "sn": rng.randint(7, 12), "sp": rng.randint(1, 12)} if rng.random() < 0.5
+                             else {"dm": rng.randint(5, 8), "dn": rng.randint(5, 8), "dp": rng.randint(5, 8)})
+        if cases[-1]["dtype"] == "float32":
+            cases[-1]["vscale"] = max(min(cases[-1]["vscale"], 40), -40)
+            cases[-1]["vscale2"] = max(min(cases[-1]["vscale2"], 40), -40)
+            if cases[-1]["vscale"] == cases[-1]["vscale2"] != 0:
+                cases[-1]["vscale2"] = 0          # keep products inside the float32 range
         if rng.random() < 0.05:
             cases[-1]["malformed"] = rng.choice(["blk", "dim"])
             cases[-1]["dn2"] = rng.choice([1, 4])
@@ -1447,7 +1538,7 @@ def run_sparse(ctx: Ctx, cases):
             check_sparse_malformed(ctx, case)
             ctx.note_case(("sparse.malformed", case["api"], case["malformed"], case.get("dn2"), case["da"], case["db"]), True)
             continue
-        check_sparse(ctx, case, lines)
+        guarded(ctx, case, check_sparse, lines)
         PA, PB, _, _ = sparse_build(case)
         ctx.note_case(("sparse", case["api"], case["sm"], case["sn"], case["sp"], case["dm"], case["dn"], case["dp"], case["pa"], case["pb"],
                        case["da"], case["db"], case["data"], case["dtype"]), bool(PA.any()) and bool(PB.any()))
@@ -1471,7 +1562,7 @@ def run_dispatch(ctx: Ctx, skip_merge_join=False):
             case = {"kind": "dispatch", "l1": a, "l2": b, "bs": rng.choice([1, 2, 3]), "gm": rng.randint(1, 3), "gn": rng.randint(1, 3),
                     "gp": rng.randint(1, 3), "dens": rng.choice([0.0, 0.3, 0.7, 1.0]), "dtype": rng.choice(["float64", "float32"]),
                     "seed": rng.randrange(1 << 30)}
-            check_dispatch(ctx, case, toks[1])
+            guarded(ctx, case, check_dispatch, toks[1])
             ctx.note_case(("dispatch", a, b, case["bs"], case["dens"]), True)
 
 
